@@ -742,7 +742,17 @@ def r_cumul(E):
     from ..astutil import fully_expanded
 
     def rounding_of(expr, f):
-        t = norm(fully_expanded(expr, f))
+        x = fully_expanded(expr, f)
+        # round(v, n) with n >= 1 keeps the fraction (it absorbs conversion noise): it is not a rounding to whole hours
+        class _Drop(ast.NodeTransformer):
+            def visit_Call(self, node):
+                self.generic_visit(node)
+                if isinstance(node.func, ast.Name) and node.func.id == "round" and len(node.args) == 2 \
+                        and isinstance(node.args[1], ast.Constant) and isinstance(node.args[1].value, int) and node.args[1].value >= 1:
+                    return node.args[0]
+                return node
+        from ..astutil import clone as _cl
+        t = norm(_Drop().visit(_cl(x)))
         ups = ("math.ceil(", "np.ceil(")
         downs = ("math.floor(", "np.floor(", "int(", "round(", "//")
         if any(u_ in t for u_ in ups) and not any(d in t for d in downs):
